@@ -12,6 +12,7 @@ let mismatch_name = function
   | SpecGets -> "spec:gets" | SpecIter -> "spec:iter" | SpecCGet -> "spec:cget"
   | SpecHeld id -> Printf.sprintf "spec:held%d" (int_of_nat id)
   | SpecReopenPrefix -> "spec:reopen-prefix"
+  | SpecZeroGauges -> "spec:zero-gauges-unpersisted"
 
 let choice_of_sx (s : Sexp.t) : persist_choice =
   match s with
